@@ -56,11 +56,9 @@ func c14r1(c *Ctx) {
 	pf := getPoolFields(c.P)
 	applyV1 := c.P.Method("consensus", "MidState", "ApplyTransaction")
 	applyV2 := c.P.Method("consensus", "MidState", "ApplyV2Transaction")
-	for _, f := range c.P.MethodsOf("chain", "Manager") {
+	// helpers expanded and deferred clean-ups made explicit (a flag + deferred `ms = nil` is the same as the direct store)
+	for _, f := range getChainRoles(c.P).methodsWithDefers() {
 		g := f.Graph()
-		if idx := f.ClassifyReturn; idx == nil {
-			continue
-		}
 		hasErr := false
 		for _, r := range g.Returns() {
 			if f.ClassifyReturn(r) != ir.RetNoErr {
